@@ -615,3 +615,177 @@ class FloatStream(DistStream):
     def labels(self, case, obs):
         band = ["request_between_enforced_and_advertised_excl"] if in_enforced_advertised_band(case) else []
         return [f"exp={case['exp']}", "in_domain" if in_domain(case) else "outside_domain"] + band + [f"branch:{lb}" for lb in obs.get("labels", [])]
+
+
+# ----------------------------------------------------------------------------- the same objects reused across calls
+# One list of InvBatPair (AggregatedBatteryData + inverter records) and one algorithm instance serve a SEQUENCE of
+# distribute_power calls; between the calls the objects are mutated IN PLACE (soc, soc limits, capacity, power bounds,
+# inverter bounds).  Every call is judged against, and compared with the model on, the CURRENT field values.
+AGG_FIELDS = {"soc": "soc", "cap": "capacity", "lo": "soc_lower_bound", "hi": "soc_upper_bound"}
+PB_FIELDS = {"il": "inclusion_lower", "el": "exclusion_lower", "eu": "exclusion_upper", "iu": "inclusion_upper"}
+INV_FIELDS = {"il": "active_power_inclusion_lower_bound", "el": "active_power_exclusion_lower_bound",
+              "eu": "active_power_exclusion_upper_bound", "iu": "active_power_inclusion_upper_bound"}
+
+
+def equiv_groups(groups):
+    """one-battery groups carrying the aggregated values (AggregatedBatteryData's fields)"""
+    out = []
+    for g in groups:
+        a = agg(g)
+        out.append({"bats": [{"id": g["bats"][0]["id"], **{k: js(a[k]) for k in BAT_F}}], "invs": [dict(i) for i in g["invs"]]})
+    return out
+
+
+def reuse_states(case):
+    """current (aggregated) field values before every call: list of (groups, call)"""
+    cur = equiv_groups(case["groups"])
+    out = []
+    for call in case["calls"]:
+        cur = [{"bats": [dict(g["bats"][0])], "invs": [dict(i) for i in g["invs"]]} for g in cur]
+        for m in call["mut"]:
+            if m[1] == "inv":
+                cur[m[0]]["invs"][m[2]][m[3]] = m[4]
+            else:
+                cur[m[0]]["bats"][0][m[1]] = m[2]
+        out.append((cur, call))
+    return out
+
+
+def run_reuse(case):
+    _, Alg, _ = _alg()
+    pairs = build(case, X)
+    alg = Alg(case["exp"])
+    obs = []
+    for groups, call in reuse_states(case):
+        for m in call["mut"]:
+            pair = pairs[m[0]]
+            if m[1] == "inv":
+                setattr(pair.inverter[m[2]], INV_FIELDS[m[3]], X(fr(m[4])))
+            elif m[1] in AGG_FIELDS:
+                setattr(pair.battery, AGG_FIELDS[m[1]], X(fr(m[2])))
+            else:
+                setattr(pair.battery.power_bounds, PB_FIELDS[m[1]], X(fr(m[2])))
+        p = fr(call["power"])
+        o = {"err": None, "dist": None, "rem": None, "distributed": None, "labels": [], "float": None}
+        try:
+            res = alg.distribute_power(X(p), pairs)
+            o["dist"] = sorted([int(k), js(v)] for k, v in res.distribution.items())
+            o["rem"] = js(res.remaining_power)
+            o["distributed"] = js(X(p) - res.remaining_power)
+        except Exception as e:  # noqa: BLE001
+            o["err"] = type(e).__name__
+        obs.append(o)
+    return {"calls": obs}
+
+
+def gen_reuse_case(rng):
+    groups = gen_groups(rng, ngroups=rng.choice([1, 2, 2, 3]))
+    exp = rng.choice([1, 1, 1, 2, 3])
+    cur = equiv_groups(groups)
+    calls = []
+    for k in range(rng.choice([2, 3, 3, 4])):
+        mut = []
+        if k > 0:
+            for gi, g in enumerate(cur):
+                b = g["bats"][0]
+                r = rng.random()
+                if r < 0.55:       # SoC moves, often onto / beyond a limit
+                    mut.append([gi, "soc", js(rng.choice([fr(b["hi"]), fr(b["hi"]) + 5, fr(b["lo"]), fr(b["lo"]) - 5,
+                                                          (fr(b["hi"]) + fr(b["lo"])) / 2, fr(b["soc"]) + 1]))])
+                elif r < 0.65:
+                    mut.append([gi, "cap", js(fr(b["cap"]) * rng.choice([2, 3, F(1, 2)]))])
+                elif r < 0.75:
+                    mut.append([gi, rng.choice(["hi", "lo"]), js(rng.choice([fr(b["soc"]), 50, 95, 5]))])
+                elif r < 0.85:     # wider inclusion bounds (keeps the group consistent)
+                    mut.append([gi, "iu", js(fr(b["iu"]) * 2 + 10)])
+                    mut.append([gi, "il", js(fr(b["il"]) * 2 - 10)])
+                elif r < 0.95 and g["invs"]:
+                    j = rng.randrange(len(g["invs"]))
+                    mut.append([gi, "inv", j, "iu", js(fr(g["invs"][j]["iu"]) * 2 + 10)])
+                    mut.append([gi, "inv", j, "il", js(fr(g["invs"][j]["il"]) * 2 - 10)])
+            for m in mut:
+                if m[1] == "inv":
+                    cur[m[0]]["invs"][m[2]][m[3]] = m[4]
+                else:
+                    cur[m[0]]["bats"][0][m[1]] = m[2]
+        reqs = requests_for(cur)
+        p = rng.choice(reqs) if reqs and rng.random() < 0.9 else F(rng.choice([-300, -90, 75, 400]))
+        calls.append({"power": js(p), "mut": mut})
+    return {"groups": groups, "exp": exp, "calls": calls}
+
+
+def reuse_boundary_cases():
+    B = lambda i, cap, soc, lo, hi, il, el, eu, iu: {"id": i, "cap": cap, "soc": soc, "lo": lo, "hi": hi, "il": il, "el": el, "eu": eu, "iu": iu}
+    I = lambda i, il, el, eu, iu: {"id": i, "il": il, "el": el, "eu": eu, "iu": iu}
+    gs = [{"bats": [B(1, 10, 50, 10, 90, -500, 0, 0, 500)], "invs": [I(2, -500, 0, 0, 500)]},
+          {"bats": [B(3, 10, 50, 10, 90, -500, 0, 0, 500)], "invs": [I(4, -500, 0, 0, 500)]}]
+    return [{"groups": gs, "exp": 1, "calls": [{"power": 400, "mut": []}, {"power": 400, "mut": [[0, "soc", 90]]},
+                                                {"power": -400, "mut": [[1, "soc", 10]]}, {"power": 400, "mut": [[0, "soc", 50], [1, "soc", 95]]}]}]
+
+
+REUSE_HEADER = HEADER.replace("Definition check (c :", "Definition check1 (c :") + (
+    "Definition check (c : list (list group * nat * Q * option (list (Z * Q) * Q * Q))) : bool := forallb check1 c.\n")
+
+
+class ReuseStream(Stream):
+    """sequence of distribute_power calls on ONE list of InvBatPair mutated in place between the calls"""
+    name = "reuse"
+    coq_header = REUSE_HEADER
+    n_quick = 250
+    n_thorough = 6000
+    CLAUSES: tuple = ()
+    FINDING_OF = staticmethod(lambda case, obs, clause, gi: None)
+
+    def gen(self, rng, tier):
+        yield from reuse_boundary_cases()
+        for _ in range(self.n_quick if tier == "quick" else self.n_thorough):
+            yield gen_reuse_case(rng)
+
+    def run_impl(self, case):
+        return run_reuse(case)
+
+    def _items(self, case, obs):
+        for (groups, call), o in zip(reuse_states(case), obs["calls"]):
+            yield {"groups": groups, "power": call["power"], "exp": case["exp"]}, o
+
+    def to_coq(self, case, obs):
+        return "[" + "; ".join(case_term(c, o) for c, o in self._items(case, obs)) + "]"
+
+    def show_term(self, case, obs):
+        return "[" + "; ".join(show_term(c) for c, _ in self._items(case, obs)) + "]"
+
+    def oracle(self, case, obs):
+        out = []
+        for k, (c, o) in enumerate(self._items(case, obs)):
+            for cl, gi, text in clauses(c, o):
+                if cl.startswith(self.CLAUSES):
+                    out.append({"what": f"{cl}: call {k} on reused objects (current values): {text}", "finding": self.FINDING_OF(c, o, cl, gi)})
+        return out
+
+    def shrink(self, case):
+        calls = case["calls"]
+        if len(calls) > 1:
+            # drop a call but keep its mutations (merge them into the next call)
+            for k in range(len(calls) - 1):
+                nxt = {**calls[k + 1], "mut": calls[k]["mut"] + calls[k + 1]["mut"]}
+                yield {**case, "calls": calls[:k] + [nxt] + calls[k + 2:]}
+            yield {**case, "calls": calls[:-1]}
+        for k, c in enumerate(calls):
+            for j in range(len(c["mut"])):
+                yield {**case, "calls": calls[:k] + [{**c, "mut": c["mut"][:j] + c["mut"][j + 1:]}] + calls[k + 1:]}
+
+    def key(self, case, obs):
+        if not any(o["dist"] and any(fr(v) != 0 for _, v in o["dist"]) for o in obs["calls"]):
+            return None
+        return json.dumps(case, sort_keys=True)
+
+    def labels(self, case, obs):
+        out = [f"calls={len(case['calls'])}"]
+        for c in case["calls"]:
+            for m in c["mut"]:
+                out.append("mutated:" + ("inverter_" + m[3] if m[1] == "inv" else m[1]))
+        for (c, o) in self._items(case, obs):
+            out.append("in_domain" if in_domain(c) else "outside_domain")
+            if o["err"] is None and any(headroom(g, fr(c["power"]) < 0) <= 0 for g in c["groups"]):
+                out.append("call_with_group_without_headroom")
+        return out
